@@ -176,3 +176,17 @@ func H_C02(l, r int) {
 	db := DB{"T": symbolicTable([]string{"a", "b"}, r)}
 	CheckPipelineFlags(src, db, flags)
 }
+
+// limitOps are row-limit operators with literals of different digit counts and spellings.
+var limitOps = []string{"take 0", "take 1", "take 2", "take 3", "limit 10", "take 007", "top 2 by a", "top 10 by a", "limit 1"}
+var limitValue = []int{0, 1, 2, 3, 10, 7, 2, 10, 1}
+
+// H_C02limits: sequences of l row limits on every 3-row table; a limit never moves or merges wrongly.
+func H_C02limits(l int) {
+	src := "T"
+	for i := 0; i < l; i++ {
+		src += " | " + limitOps[verif.Concrete(verif.IntRange(0, len(limitOps)))]
+	}
+	verif.Obs("program", src)
+	CheckPipeline(src, DB{"T": symbolicTable([]string{"a", "b"}, 3)})
+}
